@@ -108,7 +108,7 @@ func (s *verifSites) response(r *ResponseRef, seen map[*Schema]bool) {
 		return
 	}
 	s.responses = append(s.responses, r.Value)
-	for _, k := range []string{"X-H"} {
+	for _, k := range []string{"X-H", "X-C"} {
 		s.header(r.Value.Headers[k], seen)
 	}
 	s.content(r.Value.Content, seen)
@@ -133,7 +133,7 @@ func (s *verifSites) operation(op *Operation, seen map[*Schema]bool) {
 			s.response(op.Responses.Value(code), seen)
 		}
 	}
-	for _, name := range []string{"cb"} {
+	for _, name := range []string{"cb", "cbi"} {
 		if cb := op.Callbacks[name]; cb != nil && cb.Value != nil {
 			for _, pi := range cb.Value.Map() {
 				s.operation(pi.Post, seen)
